@@ -437,6 +437,7 @@ func vfStream(t *testing.T, tr *vkTrace, dir string, v vfVec) {
 		hn  int
 	}
 	var got []gotFrame
+	var kept [][]byte
 	rdEnd := "none"
 	reader, hdr, rerr := ivfreader.NewWith(bytes.NewReader(data))
 	if rerr != nil {
@@ -456,8 +457,13 @@ func vfStream(t *testing.T, tr *vkTrace, dir string, v vfVec) {
 
 				break
 			}
-			got = append(got, gotFrame{n: len(payload), h: vfHash(payload), rts: fh.Timestamp, hn: vfInt(uint64(fh.FrameSize))})
+			// the application keeps the frames it was given and looks at them when the file is read
+			kept = append(kept, payload)
+			got = append(got, gotFrame{n: len(payload), rts: fh.Timestamp, hn: vfInt(uint64(fh.FrameSize))})
 		}
+	}
+	for i := range got {
+		got[i].h = vfHash(kept[i])
 	}
 
 	tr.Emit(vkM{"ev": "hdr", "t": v.ID, "sig": "hdr(" + sigCfg + ")",
